@@ -550,6 +550,17 @@ def e_map_target(d):
         tm["DateTime<Utc>"] = "Date" if tm["DateTime<Utc>"] == "string" else "string"
 
 
+def e_map_add(d):
+    """add / remove a further mapping next to whatever is configured"""
+    tm = d["cfg"].get("type_mappings")
+    if tm and "Uuid" in tm:
+        del tm["Uuid"]
+        if not tm:
+            d["cfg"]["type_mappings"] = None
+    else:
+        d["cfg"]["type_mappings"] = dict(tm or {}, Uuid="string")
+
+
 def e_include_private(d):
     d["cfg"]["include_private"] = not d["cfg"]["include_private"]
 
@@ -579,7 +590,7 @@ EDITS = {
     "variant_rename": e_variant_rename, "validator": e_validator, "event_name": e_event_name,
     "event_payload": e_event_payload, "event_add": e_event_add, "channel": e_channel, "mode": e_mode,
     "type_mapping": e_type_mapping, "param_case": e_param_case, "field_case": e_field_case,
-    "visualize": e_visualize, "noise": e_noise, "map_target": e_map_target, "include_private": e_include_private,
+    "visualize": e_visualize, "noise": e_noise, "map_target": e_map_target, "map_add": e_map_add, "include_private": e_include_private,
 }
 
 
